@@ -118,7 +118,7 @@ impl Prop for C14 {
         let total = model_of(&case.ops);
         let hlen = header_len(&case.cfg);
         let ocfg = ArcCfg { variant: case.cfg.variant.clone(), layers: 0, level: 0, recipients: 0, reader: 0, rng_seed: 0, key_seed: 0 };
-        let plain = ReadCfg { keys: vec![], sched: Sched::Full, budget: u64::MAX / 2, error_at_read: None, spill_path: None, explicit_auth_mode: false };
+        let plain = ReadCfg { keys: vec![], sched: Sched::Full, budget: u64::MAX / 2, error_at_read: None, spill_path: None, explicit_auth_mode: false, replay: None };
         let rcfg = ReadCfg::for_cfg(&case.cfg);
         let mut lrng = Rng::new(case.param("later_seed", 1) as u64);
         let explicit: Vec<usize> = case.faults.iter().filter_map(|f| if let Fault::Cut { n } = f { Some(*n) } else { None }).collect();
